@@ -1122,7 +1122,7 @@ func init() {
 		r := r
 		cat = append(cat, sc{fmt.Sprintf("retry%d", r), func(c *fw.Ctx, i int) { c17PullRetry(c, i, r) }})
 	}
-	for _, a := range []int{-1, 0, 2000} {
+	for _, a := range []int{-1, 0, 2000, 4000} {
 		a := a
 		cat = append(cat, sc{fmt.Sprintf("autostop%d", a), func(c *fw.Ctx, i int) { c17PullAutoStop(c, i, a, false) }})
 	}
@@ -1153,7 +1153,7 @@ func init() {
 		},
 		Batches:     func(string) int { return 16 },
 		CaseTimeout: func(string) time.Duration { return 4 * time.Minute },
-		Rule: "whole-server runs with a scriptable RTMP origin and scriptable push targets in the harness that log every accepted connection. Monitor (every run): each origin connection must be permitted — pulling enabled (static, or a start_relay_pull since the last stop/kick), no publisher or pull attached during the whole preceding tick, no earlier connection still unanswered, attempt count ≤ pull_retry_num+1 since the governing start/stop, and for auto-stop ≥ 0 a consumer present within window+1 tick (for a window > 0 a start call within the window counts as start-up grace). Scripted: retry budgets 0/1/3/−1 against a refusing origin (exact attempt counts; after the budget is spent stop + start must be accepted and get a fresh budget; for −1 attach, media, stop reply = attached id, pull_stop ≤ 3 s); auto-stop −1/0/2000 ms and static pull (attach ≤ 4 s after a consumer joins, stop within [window−1 tick, window+2 ticks+1 s] after it leaves, never for −1); stop / second start / publisher while the attempt is held in flight by the origin; an attempt overtaken by a publisher that then leaves again (API with unlimited budget, and static): next attempt ≤ 4 ticks+0.3 s, attaches; kick of an attached API and static pull. Seeded programs over {consumer join/leave, start(retry, auto-stop), stop, kick, publisher arrive/leave} with origin outcomes refuse / close after connect / die after n messages / serve, judged by the monitor. Push: RTMP and RTSP publishers × 1–3 targets × target refusing its first 0–3 connections × URL parameters of 0/10/300/5000/40000 bytes: one publish session per target within (refusals+2) ticks+2 s, never two at once, publish name byte-equal incl. parameters, media arrives, sessions closed ≤ 3 s after the publisher left and no connection afterwards; a target that accepts and never answers while the publisher leaves and returns three times: never two connections at once, none left 13 s after the last publisher. cell = scenario × parameters.",
+		Rule: "whole-server runs with a scriptable RTMP origin and scriptable push targets in the harness that log every accepted connection. Monitor (every run): each origin connection must be permitted — pulling enabled (static, or a start_relay_pull since the last stop/kick), no publisher or pull attached during the whole preceding tick, no earlier connection still unanswered, attempt count ≤ pull_retry_num+1 since the governing start/stop, and for auto-stop ≥ 0 a consumer present within window+1 tick (for a window > 0 a start call within the window counts as start-up grace). Scripted: retry budgets 0/1/3/−1 against a refusing origin (exact attempt counts; after the budget is spent stop + start must be accepted and get a fresh budget; for −1 attach, media, stop reply = attached id, pull_stop ≤ 3 s); auto-stop −1/0/2000/4000 ms and static pull (attach ≤ 4 s after a consumer joins, stop within [window−1 tick, window+2 ticks+1 s] after it leaves, never for −1); stop / second start / publisher while the attempt is held in flight by the origin; an attempt overtaken by a publisher that then leaves again (API with unlimited budget, and static): next attempt ≤ 4 ticks+0.3 s, attaches; kick of an attached API and static pull. Seeded programs over {consumer join/leave, start(retry, auto-stop), stop, kick, publisher arrive/leave} with origin outcomes refuse / close after connect / die after n messages / serve, judged by the monitor. Push: RTMP and RTSP publishers × 1–3 targets × target refusing its first 0–3 connections × URL parameters of 0/10/300/5000/40000 bytes: one publish session per target within (refusals+2) ticks+2 s, never two at once, publish name byte-equal incl. parameters, media arrives, sessions closed ≤ 3 s after the publisher left and no connection afterwards; a target that accepts and never answers while the publisher leaves and returns three times: never two connections at once, none left 13 s after the last publisher. cell = scenario × parameters.",
 		Assumptions: []string{"a start_relay_pull that lal answers with an error still enables pulling as far as the attempt rules are concerned (lal stores the request and starts later); that the answer then misreports what happened is reported separately (`pull-api/refused-start-armed/*`, a known finding)", "time bands are one tick (1 s) + 0.3 s wide on each side; nothing is judged inside them", "RTSP pull origins are not driven (no RTSP stub server)"},
 		MinCells: 8,
 		Run: func(c *fw.Ctx, i int) {
